@@ -56,8 +56,9 @@ struct Ev {
 	void emit() {
 		s += "}\n";
 		out().buf += s;
-		// every event is flushed: a sanitizer report must land after the last event before it
-		out().flush();
+		// buffered; flushed when large, at the end of every history, and from the sanitizer death
+		// callback / fatal-signal handler / terminate handler, so a report lands after the last event
+		if(out().buf.size() > (1u << 15)) out().flush();
 	}
 };
 
@@ -153,7 +154,7 @@ inline bool read_line(std::string &line) {
 	return !line.empty();
 }
 
-inline void hist_done(long long i) { Ev("HistDone").i("i", i).emit(); }
+inline void hist_done(long long i) { Ev("HistDone").i("i", i).emit(); out().flush(); }
 
 // ---------------------------------------------------------------- args
 struct Args {
@@ -194,6 +195,8 @@ extern "C" void frg_log(const char *msg) {
 	vt::Ev("liblog").str("msg", msg).emit();
 }
 
+extern "C" void __sanitizer_set_death_callback(void (*)(void)) __attribute__((weak));
+#include <signal.h>
 namespace vt {
 inline void install_terminate() {
 	std::set_terminate([] {
@@ -201,5 +204,11 @@ inline void install_terminate() {
 		out().flush();
 		_exit(76);
 	});
+	if(__sanitizer_set_death_callback) __sanitizer_set_death_callback([] { out().flush(); });
+	for(int sig : {SIGILL, SIGABRT, SIGFPE, SIGBUS}) {
+		struct sigaction sa; memset(&sa, 0, sizeof sa);
+		sa.sa_handler = [](int sg) { out().flush(); const char m[] = "fatal signal\n"; (void)!::write(2, m, sizeof m - 1); _exit(70 + (sg & 7)); };
+		sigaction(sig, &sa, nullptr);
+	}
 }
 }
